@@ -1022,7 +1022,7 @@ def server_env(v, optional=(), host_value=NotImplemented):
 
 
 def default_port(env):
-    return 80 if env['wsgi.url_scheme'] == 'http' else 443
+    return Ite(env['wsgi.url_scheme'] == 'http', 80, 443)
 
 
 def host_header(v):
@@ -1044,7 +1044,8 @@ def spec_host_port(v, env, out, what):
         v.check(clause, out.exc is None and out.value is not None and out.value == want)
 
     if raw is None:
-        expect('without-host-header-the-server-name-and-port-are-used', env['SERVER_NAME'], digits_value(env['SERVER_PORT']))
+        expect('without-host-header-the-server-name-and-port-are-used', env['SERVER_NAME'],
+               env['$SERVER_PORT_INT'] if '$SERVER_PORT_INT' in env else digits_value(env['SERVER_PORT']))
         v.cover('no-host-header')
         return
     if raw.startswith('['):
@@ -1336,15 +1337,34 @@ def route_env(v):
     return env
 
 
+def _bare_node(src):
+    """A node name without port and without brackets (parse_host returns it unchanged)."""
+    return And(Not(contains(src, ':')), Not(src.startswith('[')))
+
+
 def route_hops(v):
-    """Forwarded elements: none; one with any "for"; two, the second one a bare node name (parse_host treats every element alike)."""
+    """Forwarded elements: none; one with any "for"; two with any "for" each.  The two-element case is partitioned by the
+    label 'two-hops' so that variants (fix=) cover every combination of (absent | bare node name | node with port or brackets) x the same:
+    0 = the second "for" is absent or bare, the first one is arbitrary; 1 = the second one has a port or brackets, the first one is absent
+    or bare; 2 = both have a port or brackets."""
     def mk():
         n = v.choose(3, 'hops')
         hops = [hop(v, i, ('src',)) for i in range(n)]
         if n == 2:
-            bare = v.choose(3, 'bare-hop')
-            if bare < 2 and hops[bare].src is not None:
-                v.assume(And(Not(contains(hops[bare].src, ':')), Not(hops[bare].src.startswith('['))))
+            part = v.choose(3, 'two-hops')
+            if part == 0:
+                if hops[1].src is not None:
+                    v.assume(_bare_node(hops[1].src))
+            else:
+                if hops[1].src is None or (part == 2 and hops[0].src is None):
+                    v.cut()  # an absent "for" belongs to the other parts
+                v.assume(Not(_bare_node(hops[1].src)))
+                if part == 1:
+                    if hops[0].src is not None:
+                        v.assume(_bare_node(hops[0].src))
+                else:
+                    v.assume(Not(_bare_node(hops[0].src)))
+                    v.assume(hops[0].src.startswith('[') if v.choose(2, 'first-hop-bracketed') else Not(hops[0].src.startswith('[')))
         return hops
 
     return Parser(v, '_parse_forwarded_header', [mk])
@@ -1383,14 +1403,21 @@ def _access_route(v, retry):
 for _src, _nm in ((1, 'x-forwarded-for'), (2, 'x-real-ip'), (3, 'remote-addr')):
     harness(PROP, WREQ + '.access_route', name='wsgi_access_route[%s]' % _nm, setup=_base_setup, inline=ROUTE_INLINE, fix={'route-source': _src})(
         lambda v: _access_route(v, False))
-for _n in (0, 1, 2):
+for _n in (0, 1):
     harness(PROP, WREQ + '.access_route', name='wsgi_access_route[forwarded,hops=%d]' % _n, setup=_base_setup, inline=ROUTE_INLINE,
-            fix=dict({'route-source': 0, 'hops': _n}, **({'lower-priority-headers-too': 0} if _n == 2 else {})))(lambda v: _access_route(v, False))
-for _b in (0, 2):
-    harness(PROP, WREQ + '.access_route', name='EXP_wsgi_access_route[forwarded,hops=2,bare=%d]' % _b, setup=_base_setup, inline=ROUTE_INLINE,
-            fix={'route-source': 0, 'hops': 2, 'lower-priority-headers-too': 0, 'bare-hop': _b})(lambda v: _access_route(v, False))
+            fix={'route-source': 0, 'hops': _n})(lambda v: _access_route(v, False))
+# two elements: every combination of (shape of the two "for" values) x (lower-priority headers present or not), one variant each;
+# 'two-hops' = 2 (both with port / brackets: the expensive cross product of the parse_host cases) runs in the thorough tier only
+for _part in (0, 1, 2):
+    for _low in (0, 1):
+        for _br in ((0, 1) if _part == 2 else (None,)):
+            harness(PROP, WREQ + '.access_route', name='wsgi_access_route[forwarded,hops=2%s%s%s]' % (
+                        '' if _part == 0 else ',two-hops=%d' % _part, '' if _low == 0 else ',lower=1', '' if _br is None else ',bracketed=%d' % _br),
+                    setup=_base_setup, inline=ROUTE_INLINE, **({'tier': 'thorough'} if _part == 2 else {}),
+                    fix=dict({'route-source': 0, 'hops': 2, 'two-hops': _part, 'lower-priority-headers-too': _low},
+                             **({} if _br is None else {'first-hop-bracketed': _br})))(lambda v: _access_route(v, False))
 harness(PROP, WREQ + '.access_route', name='wsgi_access_route_retry', setup=_base_setup, inline=ROUTE_INLINE,
-        fix={'route-source': 0, 'lower-priority-headers-too': 0, 'has-REMOTE_ADDR': 0})(lambda v: _access_route(v, True))
+        fix={'route-source': 0, 'lower-priority-headers-too': 0, 'has-REMOTE_ADDR': 0, 'two-hops': 0})(lambda v: _access_route(v, True))
 
 
 @harness(PROP, WREQ + '.remote_addr', setup=_base_setup)
@@ -1510,19 +1537,33 @@ def asgi_headers(v, optional=(), always=()):
 
 
 def asgi_scope(v, server=True, client=True, scheme=True):
-    """The connection scope as far as the accessors read it (ASGI HTTP spec: scheme, server, client, root_path are optional)."""
+    """The connection scope as far as the accessors read it (ASGI HTTP spec: scheme, server, client, root_path are optional).
+    The scheme (any of the four the ASGI spec names) and the server port (any port number) are symbolic: the exploration forks
+    on them only where the code under contract reads them."""
     scope = {'type': 'http'}
     if scheme and v.choose(2, 'scope-has-scheme'):
-        scope['scheme'] = v.one_of('scheme', 'http', 'https', 'wss')
+        scope['scheme'] = scheme_value(v)
     if server:
         k = v.choose(3, 'scope-server')  # 0 missing, 1 None, 2 (name, port)
         if k == 1:
             scope['server'] = None
         elif k == 2:
-            scope['server'] = (v.str('server_name'), v.one_of('server-port', 80, 443, 8000))
+            scope['server'] = (v.str('server_name'), v.int('server_port', 0, 65535))
     if client and v.choose(2, 'scope-has-client'):
         scope['client'] = (v.str('client_addr'), 50000)
     return scope
+
+
+def scheme_value(v):
+    s = v.str('scheme')
+    v.assume(Or(s == 'http', s == 'https', s == 'ws', s == 'wss'))
+    return s
+
+
+def ws_flag(v):
+    """Request.is_websocket (set by __init__ from scope['type']): read by `scheme` when the scope carries no scheme.  Symbolic, so that
+    every accessor is checked for both kinds of connection without forking where the flag is not read."""
+    return v.bool('is_websocket')
 
 
 def asgi_req(v, headers, scope=None, **fields):
@@ -1532,31 +1573,45 @@ def asgi_req(v, headers, scope=None, **fields):
 
 
 def a_scheme(scope, is_websocket=False):
-    return scope.get('scheme', 'ws' if is_websocket else 'http')
+    if 'scheme' in scope:
+        return scope['scheme']
+    return Ite(is_websocket, 'ws', 'http')
 
 
-def a_secure(scope):
-    return a_scheme(scope) in ('https', 'wss')
+def a_secure(scope, is_websocket=False):
+    s = a_scheme(scope, is_websocket)
+    return Or(s == 'https', s == 'wss')
 
 
-def a_server(scope):
+def a_default_port(scope, is_websocket=False):
+    return Ite(a_secure(scope, is_websocket), 443, 80)
+
+
+def a_server(scope, is_websocket=False):
     srv = scope.get('server')
-    return tuple(srv) if srv is not None else ('localhost', 443 if a_secure(scope) else 80)
+    return tuple(srv) if srv is not None else ('localhost', a_default_port(scope, is_websocket))
 
 
-def a_netloc(view, scope):
+def int_text(n):
+    """str(n) for a non-negative int (spec side)."""
+    if hasattr(n, 't'):
+        return mk_str(z3.IntToStr(n.t), 'str')
+    return str(n)
+
+
+def a_netloc(view, scope, is_websocket=False):
     if 'HTTP_HOST' in view:
         return view['HTTP_HOST']
-    name, port = a_server(scope)
-    return name if port == (443 if a_secure(scope) else 80) else name + ':' + str(port)
+    name, port = a_server(scope, is_websocket)
+    return Ite(port == a_default_port(scope, is_websocket), name, name + ':' + int_text(port))
 
 
-def wsgi_view(view, scope):
+def wsgi_view(view, scope, is_websocket=False):
     """The ASGI request in the vocabulary of the WSGI specifications above."""
     env = dict(view)
-    name, port = a_server(scope)
-    env['wsgi.url_scheme'] = a_scheme(scope)
-    env['SERVER_NAME'], env['SERVER_PORT'] = name, str(port)
+    name, port = a_server(scope, is_websocket)
+    env['wsgi.url_scheme'] = a_scheme(scope, is_websocket)
+    env['SERVER_NAME'], env['SERVER_PORT'], env['$SERVER_PORT_INT'] = name, int_text(port), port
     return env
 
 
@@ -1767,7 +1822,7 @@ A_INLINE = [AGET, PARSE_HOST, AREQ + '.scheme', AREQ + '._secure_scheme', AREQ +
 @harness(PROP, AREQ + '.scheme', name='asgi_scheme', setup=_base_setup)
 def asgi_scheme(v):
     scope = asgi_scope(v, server=False, client=False)
-    ws = bool(v.choose(2, 'websocket'))
+    ws = ws_flag(v)
     out = v.call(asgi_req(v, {}, scope, is_websocket=ws))
     v.check('scheme-is-the-scope-scheme-or-the-default-of-the-scope-type', out.exc is None and out.value == a_scheme(scope, ws))
 
@@ -1775,11 +1830,12 @@ def asgi_scheme(v):
 def _asgi_host_port(what):
     def h(v):
         headers, view = asgi_headers(v, optional=['host'])
-        # with a Host header only "secure or not" matters (default port); without one the server entry of the scope is read
-        scope = asgi_scope(v, client=False) if not headers else ({'type': 'http', 'scheme': 'https'} if v.choose(2, 'secure') else {'type': 'http'})
-        out = v.call(asgi_req(v, headers, scope))
-        env = wsgi_view(view, scope)
-        env['wsgi.url_scheme'] = 'https' if a_secure(scope) else 'http'  # the default port follows "secure or not"
+        # the scope (scheme, server) and the kind of connection vary independently of the Host header
+        scope = asgi_scope(v, client=False)
+        ws = ws_flag(v)
+        out = v.call(asgi_req(v, headers, scope, is_websocket=ws))
+        env = wsgi_view(view, scope, ws)
+        env['wsgi.url_scheme'] = Ite(a_secure(scope, ws), 'https', 'http')  # the default port follows "secure or not"
         spec_host_port(v, env, out, what)
 
     return h
@@ -1792,43 +1848,46 @@ harness(PROP, AREQ + '.port', name='asgi_port', setup=_base_setup, inline=A_INLI
 @harness(PROP, AREQ + '.netloc', name='asgi_netloc', setup=_base_setup, inline=A_INLINE)
 def asgi_netloc(v):
     scope = asgi_scope(v, client=False)
+    ws = ws_flag(v)
     headers, view = asgi_headers(v, optional=['host'])
-    out = v.call(asgi_req(v, headers, scope))
+    out = v.call(asgi_req(v, headers, scope, is_websocket=ws))
     escape_only_400(v, out)
-    v.check('host-header-verbatim-else-server-with-port-omitted-iff-default', out.exc is None and out.value == a_netloc(view, scope))
+    v.check('host-header-verbatim-else-server-with-port-omitted-iff-default', out.exc is None and out.value == a_netloc(view, scope, ws))
     v.cover('netloc')
 
 
 @harness(PROP, AREQ + '.forwarded_scheme', name='asgi_forwarded_scheme', setup=_base_setup, inline=A_INLINE)
 def asgi_forwarded_scheme(v):
     scope = asgi_scope(v, server=False, client=False)
+    ws = ws_flag(v)
     headers, view = asgi_headers(v, optional=['forwarded', 'x-forwarded-proto'])
     parser = forwarded_parser(v, max_hops=2, fields=('scheme',))
     with patched(v, WM, '_parse_forwarded_header', parser):
-        out = v.call(asgi_req(v, headers, scope))
+        out = v.call(asgi_req(v, headers, scope, is_websocket=ws))
     escape_only_400(v, out)
-    v.check('first-hop-proto-then-x-forwarded-proto-then-own-scheme', out.exc is None and out.value == spec_forwarded_scheme(wsgi_view(view, scope), hops_of(parser)))
+    v.check('first-hop-proto-then-x-forwarded-proto-then-own-scheme', out.exc is None and out.value == spec_forwarded_scheme(wsgi_view(view, scope, ws), hops_of(parser)))
 
 
-def a_forwarded_host(view, scope, hops):
+def a_forwarded_host(view, scope, hops, is_websocket=False):
     if 'HTTP_FORWARDED' in view:
         if hops and hops[0].host is not None and _nonempty(hops[0].host):
             return hops[0].host
-        return a_netloc(view, scope)
+        return a_netloc(view, scope, is_websocket)
     if 'HTTP_X_FORWARDED_HOST' in view:
         return view['HTTP_X_FORWARDED_HOST']
-    return a_netloc(view, scope)
+    return a_netloc(view, scope, is_websocket)
 
 
 @harness(PROP, AREQ + '.forwarded_host', name='asgi_forwarded_host', setup=_base_setup, inline=A_INLINE)
 def asgi_forwarded_host(v):
     scope = asgi_scope(v, client=False)
+    ws = ws_flag(v)
     headers, view = asgi_headers(v, optional=['forwarded', 'x-forwarded-host', 'host'])
-    parser = forwarded_parser(v, max_hops=1, fields=('host',))
+    parser = forwarded_parser(v, max_hops=2, fields=('host',))  # two elements: "first hop" and "last hop" are different elements
     with patched(v, WM, '_parse_forwarded_header', parser):
-        out = v.call(asgi_req(v, headers, scope))
+        out = v.call(asgi_req(v, headers, scope, is_websocket=ws))
     escape_only_400(v, out)
-    v.check('first-hop-host-then-x-forwarded-host-then-own-netloc', out.exc is None and out.value == a_forwarded_host(view, scope, hops_of(parser)))
+    v.check('first-hop-host-then-x-forwarded-host-then-own-netloc', out.exc is None and out.value == a_forwarded_host(view, scope, hops_of(parser), ws))
 
 
 def _asgi_url_property(prop, field, forwarded):
@@ -1921,11 +1980,19 @@ A_ROUTE_INLINE = [AGET, PARSE_HOST, WREQ + '.forwarded']
 for _src, _nm in ((1, 'x-forwarded-for'), (2, 'x-real-ip'), (3, 'client')):
     harness(PROP, AREQ + '.access_route', name='asgi_access_route[%s]' % _nm, setup=_base_setup, inline=A_ROUTE_INLINE, fix={'route-source': _src})(
         lambda v: _asgi_access_route(v, 'route'))
-for _n in (0, 1, 2):
+for _n in (0, 1):
     harness(PROP, AREQ + '.access_route', name='asgi_access_route[forwarded,hops=%d]' % _n, setup=_base_setup, inline=A_ROUTE_INLINE,
-            fix=dict({'route-source': 0, 'hops': _n}, **({'lower-priority-headers-too': 0} if _n == 2 else {})))(lambda v: _asgi_access_route(v, 'route'))
+            fix={'route-source': 0, 'hops': _n})(lambda v: _asgi_access_route(v, 'route'))
+for _part in (0, 1, 2):
+    for _low in (0, 1):
+        for _br in ((0, 1) if _part == 2 else (None,)):
+            harness(PROP, AREQ + '.access_route', name='asgi_access_route[forwarded,hops=2%s%s%s]' % (
+                        '' if _part == 0 else ',two-hops=%d' % _part, '' if _low == 0 else ',lower=1', '' if _br is None else ',bracketed=%d' % _br),
+                    setup=_base_setup, inline=A_ROUTE_INLINE, **({'tier': 'thorough'} if _part == 2 else {}),
+                    fix=dict({'route-source': 0, 'hops': 2, 'two-hops': _part, 'lower-priority-headers-too': _low},
+                             **({} if _br is None else {'first-hop-bracketed': _br})))(lambda v: _asgi_access_route(v, 'route'))
 harness(PROP, AREQ + '.access_route', name='asgi_access_route_retry', setup=_base_setup, inline=A_ROUTE_INLINE,
-        fix={'route-source': 0, 'lower-priority-headers-too': 0, 'scope-has-client': 0})(lambda v: _asgi_access_route(v, 'retry'))
+        fix={'route-source': 0, 'lower-priority-headers-too': 0, 'scope-has-client': 0, 'two-hops': 0})(lambda v: _asgi_access_route(v, 'retry'))
 harness(PROP, AREQ + '.access_route', name='asgi_access_route_client_none', setup=_base_setup, inline=A_ROUTE_INLINE,
         fix={'route-source': 3})(lambda v: _asgi_access_route(v, 'client-none'))
 
